@@ -111,6 +111,9 @@ impl<T: Read + Seek> PagedReader<T> {
             ))?;
         }
         let offset = page * self.page_size;
+        // The buffer is overwritten from here on, it must not be taken for the
+        // previously loaded page when reading the new one fails halfway
+        self.page_num = None;
         self.reader.seek(SeekFrom::Start(offset))?;
         self.reader.read_exact(&mut self.page_buffer)?;
         let data_size = self.page_size - CHECKSUM_SIZE;
@@ -131,7 +134,6 @@ impl<T: Read + Seek> PagedReader<T> {
         let calculated_checksum = crc.to_be_bytes();
 
         if expected_checksum != calculated_checksum {
-            self.page_num = None;
             return Err(Error::new(
                 ErrorKind::InvalidData,
                 format!("Detected invalid checksum (expected: {expected_checksum:?}, actual: {calculated_checksum:?}) for page {page}")
